@@ -221,6 +221,7 @@ func runSysRace(x *X) {
 		stuck = true
 	}
 	if stuck {
+		env.wedged = true
 		ws := simrt.FreeLockWaiters()
 		key := ws
 		if cyc := simrt.FreeLockCycle(); cyc != nil {
